@@ -240,6 +240,7 @@ kdump_clone(const kdump_ctx_t *orig, unsigned long flags)
 			while (slot-- > 0)
 				if (orig->shared->per_ctx_size[slot])
 					free(ctx->data[slot]);
+			rwlock_unlock(&orig->shared->lock);
 			addrxlat_ctx_decref(ctx->xlatctx);
 			free(ctx);
 			return NULL;
